@@ -1,7 +1,7 @@
 '''C12 - a rendered report shows a failure mark exactly for failing results.'''
 import ast
 
-from ..rules import marks, reportfs
+from ..rules import marks, reportfs, patterns
 from ..astutil import txt, call_name
 from ..mutate import (Variant, edit_module, find_func, replace_first,
                       remove_stmt, insert_stmt, parse_stmts, parse_expr)
@@ -64,9 +64,10 @@ def check(ctx):
     ctx.run(marks.check_hl_source)
     ctx.run(marks.check_hl_per_dataset)
     ctx.run(reportfs.check_clear_complete)
+    ctx.run(patterns.check_patterns, ID)
 
 
-def variants(program):
+def _variants(program):
     out = []
 
     def add(name, kind, mod, editor, expect=None, quick=False, note=''):
@@ -312,3 +313,8 @@ def variants(program):
             lambda n: parse_expr('verbosity in (Verbosity.SUMMARY,)'))
     add('twin-guard-as-membership', 'twin', TREPR, guard_in_tuple)
     return out
+
+
+def variants(program):
+    from ..variants import patterns as _pv
+    return list(_variants(program)) + _pv.variants(program, ID)
